@@ -65,6 +65,9 @@ def overlap_scenario(args):
 
 def run_k(ctx, kres):
     v = k_suite(ctx, kres, "K15-processes", traces(ctx), in_projection, sig_of=sig_of, shrink_budget=60)
+    # every entry point that takes an object, as the FIRST call of a process after another process changed / renamed / destroyed that object
+    from .. import gen2
+    v += k_suite(ctx, kres, "K15-first-touch", [Trace("first-touch", gen2.c15_first_touch(ctx.seed))], lambda m: True, sig_of=lambda m: "first-touch.%s.%s" % (m["op"], m["cat"]), shrink_budget=60)
     # ---- K15-overlap: one call paused at its k-th file operation, the other process's calls inside -------------------------------
     kres["suites"] += 1
     scen = gen.overlap_scenarios()
